@@ -77,7 +77,7 @@ def main():
     hooks_commits = subprocess.run(["git", "-C", "/repo", "log", "--format=%H", "--grep=^verif hook"], stdout=subprocess.PIPE, text=True).stdout.split()
     m = {
         "version": 1,
-        "setup_cmd": "make -s -j16 V=plain && make -s -j16 V=asan",
+        "setup_cmd": "make -s -j16 V=plain && make -s -j16 V=asan && make -s -j16 V=vg",
         "hooks": {
             "guard": "INOVESA_VERIF",
             "enable": "the checks compile /repo/src/**/*.cpp themselves with -DINOVESA_VERIF (src/main.cpp additionally with -Dmain=inovesa_main); see /verif/Makefile",
